@@ -196,8 +196,8 @@ def gen_fit(rng):
     # a single value set through the keyword form, as the last thing before saving
     if rng.random() < 0.35:
         i = rng.randrange(len(names))
-        if names[i] not in spec["fixed"]:
-            spec["set_kw"] = {names[i]: round(spec["ptrue"][i] * 1.13 + 0.02, 4)}
+        # (also for a parameter that is fixed: the value a fixed parameter holds is the current one, not the one it had when it was fixed)
+        spec["set_kw"] = {names[i]: round(spec["ptrue"][i] * 1.13 + 0.02, 4)}
     # documented cost function option handed over as an object (low rate: the space behind open finding F-C09-13 stays explored)
     spec["nodet"] = t in ("xy", "indexed") and spec["cost"].startswith("chi2") and rng.random() < 0.06
     return spec
@@ -601,6 +601,24 @@ class IOMachine(Machine):
                 if d:
                     raise Violation(PROP, "equivalent", "fit:cost", "cost at the same parameter points differs after reload: %s vs %s" % (c1, c2), step=step,
                                     extra={"tags": self.tags(kind, spec, "cost")})
+                # continuation: the reloaded object must answer the same later operations in the same way (uncertainty sources toggled after
+                # the costs above were read, i.e. with every cache of both objects filled)
+                toggled = 0
+                for s_ in spec["sources"]:
+                    if s_["name"] == "base":
+                        continue
+                    for o_ in (obj, loaded):
+                        (o_.enable_error if not s_["enabled"] else o_.disable_error)(s_["name"])
+                    toggled += 1
+                    c1 = fit_costs(obj, points)
+                    c2 = fit_costs(loaded, points)
+                    d = same(c1, c2, 1e-7)
+                    if d:
+                        raise Violation(PROP, "equivalent", "fit:continuation", "after %s uncertainty source %r on both objects the cost at the same parameter points differs: "
+                                        "reloaded %s vs original %s" % ("enabling" if not s_["enabled"] else "disabling", s_["name"], c2, c1), step=step,
+                                        extra={"tags": self.tags(kind, spec, "cost") + ["toggle-" + s_["ref"]]})
+                if toggled:
+                    res.probe("continuation_toggle_compared", toggled)
                 if spec.get("do_fit") and (case["seed"] + step) % 2 == 0 and len(spec["names"]) - len(spec["fixed"]) >= 1:
                     try:
                         obj.set_all_parameter_values(points[0])
